@@ -63,7 +63,7 @@ func genPeer(rng *kernel.RNG, env *kernel.Env) *PeerPlan {
 	if rng.Intn(6) == 0 {
 		p.HelloID = []string{"zero", "other"}[rng.Intn(2)]
 	}
-	kinds := []string{"honest", "honest", "bomb-over", "bomb-at-limit", "bomb-huge-claim", "bad-snappy", "empty", "code-out-of-range", "ping-flood", "pong", "hello-again", "disc-garbage", "honest-big", "boundary", "boundary"}
+	kinds := []string{"echo-then-garbage", "honest", "honest", "bomb-over", "bomb-at-limit", "bomb-huge-claim", "bad-snappy", "empty", "code-out-of-range", "ping-flood", "pong", "hello-again", "disc-garbage", "honest-big", "boundary", "boundary"}
 	for i := rng.Range(1, 8); i > 0; i-- {
 		p.Frames = append(p.Frames, HostileFrame{Kind: kinds[rng.Intn(len(kinds))], A: rng.Intn(256)})
 	}
@@ -98,6 +98,13 @@ func execPeer(p *PeerPlan, col *kernel.Collector) []kernel.Violation {
 				mu.Lock()
 				received = append(received, peerRecv{msg.Code, msg.Size, int(n), name})
 				mu.Unlock()
+				if msg.Code == 5 && name == "sim" {
+					// an answering protocol: code 5 is echoed, so that a write of the victim's can be
+					// under way when the connection is torn down
+					if err := p2p.Send(rw, 5, []uint{uint(n)}); err != nil {
+						return err
+					}
+				}
 			}
 		}}
 	}
@@ -274,6 +281,12 @@ func execPeer(p *PeerPlan, col *kernel.Collector) []kernel.Violation {
 			switch f.Kind {
 			case "honest":
 				err = ap.WriteMsg(16+uint64(f.A%16), bytes.Repeat([]byte{byte(f.A)}, 10+f.A*8))
+			case "echo-then-garbage":
+				// a request the victim answers, and right behind it bytes that are no frame: the
+				// read side fails while the answer is being written
+				if err = ap.WriteMsg(16+5, bytes.Repeat([]byte{7}, 40+f.A)); err == nil {
+					_, err = a1.Write(rng.Bytes(96))
+				}
 			case "honest-big":
 				err = ap.WriteMsg(16+uint64(f.A%16), bytes.Repeat([]byte{byte(f.A)}, 1<<20))
 			case "bomb-over":
